@@ -35,10 +35,24 @@ CLAIMED = {
         "quick_timeout": 900,
         "thorough_timeout": 14400,
     },
+    "C20": {
+        "engine": "caller-env",
+        "category": "fault_enumeration",
+        "technique": "deterministic simulation of the caller: simulator-owned buffers (protection/layout/aliasing modes, canaries), tracked containers and callbacks (return-object behaviours), with a cancellation fault enumerated at every callback invocation",
+        "text": "The simulator owns every array, list, dict and callback handed to the library. Seeded caller programs over a catalogue of public entry points choose, "
+        "per argument, the memory mode (read-only, view in a canaried buffer, strided, Fortran, same array twice) and per callback the returned object (fresh, its own "
+        "argument, memoised, read-only, guarded view); everything is byte-snapshotted before and compared after the call returns or raises, and results must equal the "
+        "plain/benign baseline. For operations with callbacks a cancellation is injected at every callback invocation up to 64 (sampled beyond): that part is an "
+        "enumeration of crash points, the rest is seeded sampling of caller programs.",
+        "design_ref": "DESIGN.md section 3 (C20)",
+        "note": "Trusts the byte snapshots (sha256) and the finite catalogue in engines/catalogue.py as the meaning of 'public operations'; result equivalence to relative 1e-7; "
+        "transient container mutations that are undone before return are allowed (probe only).",
+        "quick_timeout": 1200,
+        "thorough_timeout": 21600,
+    },
 }
 
 PLANNED = {
-    "C20": "claimed in DESIGN.md (caller-env engine); check not built yet in this commit",
     "C15": "claimed narrowly in DESIGN.md (rng-seam engine); check not built yet in this commit",
     "C16": "claimed narrowly in DESIGN.md (rng-seam engine); check not built yet in this commit",
 }
@@ -93,6 +107,7 @@ def main():
         },
         "engines": [
             {"name": "cache-history", "path": "engines/cache_history.py", "serves_properties": ["C19"], "kind_free_text": "deterministic simulation of call histories + store faults + scheduled caller threads"},
+            {"name": "caller-env", "path": "engines/caller_env.py", "serves_properties": ["C20"], "kind_free_text": "deterministic simulation of caller memory and callbacks with enumerated cancellation points"},
             {"name": "grid-history", "path": "engines/grid_history.py", "serves_properties": ["C10"], "kind_free_text": "deterministic simulation of query/reassignment/selection histories on live grid objects"},
         ],
         "checks": [check_entry(pid, CLAIMED[pid]) for pid in sorted(CLAIMED)],
